@@ -423,10 +423,11 @@ class _Agg:
                 self.stats['eval_' + shape[0]] += 1
             if not _is_legal(phase, shape):
                 kind = 'uncoded' if shape[0] == 'err' else shape[0]
-                feat = dict(kind=kind, phase=phase, exc=fp['exc'], where=fp['where'], sym=fp['sym'])
+                feat = escape_features(kind, phase, fp)
                 key = json.dumps(feat, sort_keys=True)
                 ent = self.fails.get(key)
-                case = dict(mode='text', version=version, text=text, phase=phase, detail=detail, origin=origin)
+                case = dict(mode='text', version=version, text=text, phase=phase, detail=detail, origin=origin,
+                            token_symbol=fp['sym'])
                 if ent is None:
                     self.fails[key] = [feat, 1, case, f'member of LegalShapes({phase})', [shape[0], ident]]
                 else:
@@ -443,6 +444,15 @@ class _Agg:
 
     def result(self):
         return dict(self.stats), list(self.fails.values()), self.nontrivial, self.samples
+
+
+def escape_features(kind: str, phase: str, fp: dict) -> dict:
+    """Feature dict of an illegal outcome: one root cause = one class.  The token symbol is part of the
+    class only for RecursionError (the raising function is arbitrary there)."""
+    feat = dict(kind=kind, phase=phase, exc=fp.get('exc'), where=fp.get('where'))
+    if fp.get('where') == 'recursion':
+        feat['sym'] = fp.get('sym')
+    return feat
 
 
 def render(seq: tuple) -> list[tuple[str, str]]:
@@ -573,8 +583,7 @@ def history_worker(job):
             prev = [x[1] for x in hist_desc[:n]]
             if out[0] in ('escaped', 'hang'):
                 fp = out[3]
-                fail(dict(kind=out[0], phase='parse', exc=fp['exc'], where=fp['where'], sym=fp['sym']), case,
-                     'member of LegalShapes(parse)', list(out[:3]))
+                fail(escape_features(out[0], 'parse', fp), case, 'member of LegalShapes(parse)', list(out[:3]))
             elif out[0] != exp_kind:
                 fail(dict(kind='class-outcome', version=version, src_class=sc, expected=exp_kind, observed=out[0],
                           first_call=(n == 0)), case, exp_kind, list(out[:3]))
@@ -718,6 +727,8 @@ def run(chk: core.Check) -> None:
             raise tla.MachineryError('unexpected action in Tokens graph')
         seqs = [(st['seq'], st['gclass']) for st in g.states.values()]
         del g
+        if len(tier['token_runs']) > 1 and alpha != 'all':
+            seqs = [x for x in seqs if len(x[0]) > 3]    # the shorter ones are covered by the full-alphabet run
         seqs.sort()
         t_load = time.time() - t0
         t0 = time.time()
@@ -739,7 +750,7 @@ def run(chk: core.Check) -> None:
     n_gram = sum(v for k, v in gclass_counts.items() if k.startswith('g'))
     if not n_gram or not gclass_counts.get('ill'):
         raise tla.MachineryError('vacuous token space: no grammatical or no ungrammatical sequence reachable')
-    if not gram_total.get('grammatical_accepted') or not gram_total.get('ill_rejected'):
+    if (not gram_total.get('grammatical_accepted') or not gram_total.get('ill_rejected')) and not _too_many_hangs():
         raise tla.MachineryError(f'binding broken: parsers accept no grammatical / reject no ill-formed sequence {dict(gram_total)}')
     if gram_total.get('grammatical_REJECTED') or gram_total.get('ill_ACCEPTED'):
         chk.note(f'grammar classes of Tokens.tla vs parsers disagree (C04 territory, not judged here): '
@@ -863,7 +874,7 @@ def run(chk: core.Check) -> None:
                 events.append(json.loads(line))
             except ValueError:
                 pass   # a torn last line
-    if len(events) < 2000:
+    if len(events) < 2000 and not _too_many_hangs():
         raise tla.MachineryError(f'recorder wrote only {len(events)} events: {tail}')
     by_test: dict = {}
     texts = {}
@@ -903,7 +914,7 @@ def run(chk: core.Check) -> None:
         n_mut += len(ms)
         mjobs.append((v, text, k, ms))
     del r
-    if n_mut < 1000:
+    if n_mut < 1000 and not _too_many_hangs():
         raise tla.MachineryError(f'TLC chose only {n_mut} mutations')
     mjobs.sort(key=lambda j: (j[2] * 7919) % 10007)   # spread long expressions over the chunks
     t_plan = time.time() - t0
@@ -954,8 +965,7 @@ def run(chk: core.Check) -> None:
             raise tla.MachineryError(f'call event rejected (recorder broken?): {case}')
         if not legal:
             kind = 'uncoded' if e['k'] == 'err' else e['k']
-            ent = [dict(kind=kind, phase='parse', exc=e.get('exc'), where=e.get('where'), sym=e.get('sym')), 1, case,
-                   'ApiRetStep: legal outcome', [e['k'], e['v']]]
+            ent = [escape_features(kind, 'parse', e), 1, case, 'ApiRetStep: legal outcome', [e['k'], e['v']]]
             merge_fails(all_fails, [ent])
         if not consistent:
             ent = [dict(kind='history', binding='trace', parser_class=cls.rsplit('.', 1)[-1], observed=e['k']), 1, case,
@@ -990,7 +1000,8 @@ def run(chk: core.Check) -> None:
         'every path of the ParserLife graph (parse histories on 2 instances), every recorded suite parse (TLC trace validation). '
         'distinct_nontrivial counts (version, text) pairs that got past the grammar (a tree, or an error code other than XPST0003) '
         'plus histories in which a later call follows a failed one')
-    if not stats.get('parse_value') or not stats.get('parse_err') or not stats.get('eval_value') or not stats.get('eval_err'):
+    if (not stats.get('parse_value') or not stats.get('parse_err') or not stats.get('eval_value')
+            or not stats.get('eval_err')) and not _too_many_hangs():
         raise tla.MachineryError(f'vacuous replay: {dict(stats)}')
     chk.coverage['wall_breakdown_s'] = round(time.time() - t_start, 1)
 
